@@ -22,6 +22,7 @@ mod c16;
 mod c14;
 mod c20;
 mod c17;
+mod c09;
 
 use common::Tier;
 
@@ -54,6 +55,10 @@ fn main() {
         "C14" => c14::run(tier),
         "C20" => c20::run(tier),
         "C17" => c17::run(tier),
+        "C09" => c09::run(tier),
+        "C09-text" => c09::text_child(args[2].parse().unwrap(), args[3].parse().unwrap()),
+        "C09-probe" => c09::probe_child(&args[2], args[3].parse().unwrap()),
+        "C09-load" => c09::load_child(&args[2]),
         "parse" => {
             use std::convert::TryFrom;
             let t = &args[2];
